@@ -290,6 +290,30 @@ def run(ctx):
                 except Exception:
                     rec['err'] = 'rejected-as-expected'
                 recs.append(rec)
+        # invalid brackets whose end values are tiny (shallow functions, brackets hugging the root from one side)
+        for i in range(40 if quick else 300):
+            sc = 10.0 ** rs.uniform(-14, -7)
+            r0 = rs.uniform(-5, 5)
+            w0 = 10.0 ** rs.uniform(-3, 1)
+            side = 1 if rs.uniform() < 0.5 else -1
+            a_, b_ = sorted([r0 + side * w0 * rs.uniform(0.01, 0.2), r0 + side * w0 * rs.uniform(0.3, 1.0)])
+            cubic = rs.uniform() < 0.3
+            n = int(rs.choice([1, 3]))
+
+            def ftiny(x, sc=sc, r0=r0, cubic=cubic):
+                d = np.asarray(x, dtype=float) - r0
+                return sc * (d ** 3 if cubic else d)
+            for alg in ('bisect', 'chandrupatla', 'chandrupatla-scalar'):
+                rec = {'alg': alg.split('-')[0] + '-invalid', 'kind': 'tiny-values', 'err': 'invalid-bracket-accepted', 'inside': True, 'accurate': True,
+                       'exactzero': False, 'n': n, 'lo': {'x': 0, 's': -1, 'm': 1}, 'hi': {'x': 1, 's': 1, 'm': 1}, 'evals': [], 'ret': -1}
+                try:
+                    if alg == 'chandrupatla-scalar':
+                        optimize.chandrupatla(lambda x: float(ftiny(x)), float(a_), float(b_))
+                    else:
+                        getattr(optimize, alg)(ftiny, np.full(n, a_), np.full(n, b_))
+                except Exception:
+                    rec['err'] = 'rejected-as-expected'
+                recs.append(rec)
         tf = os.path.join(wd, 'lanes.json')
         T.dump_json(tf, [{k: r[k] for k in ('err', 'lo', 'hi', 'evals', 'ret', 'inside', 'accurate', 'exactzero')} for r in recs])
         r = T.run('Bracketing', cfgB % (1, 0) + 'INVARIANT TraceChecked\n', workers=1, env={'TRACE_FILE': tf}, timeout=1500)
